@@ -167,6 +167,13 @@ AddTwinWorkload ==
          /\ ~\E j \in DOMAIN world.workloads : world.workloads[j].ns = ns /\ world.workloads[j].name = world.workloads[i].name
          /\ Step("AddTwinWorkload", <<i>>, [world EXCEPT !.workloads = Append(@, [world.workloads[i] EXCEPT !.ns = ns])])
 
+(* a workload that happens to carry the name the tool uses for its ingress-controller placeholder pod *)
+NameLikePlaceholder ==
+  /\ Len(world.workloads) > 0 /\ Rarely(2)
+  /\ \E i \in Pick(DOMAIN world.workloads) :
+       /\ ~\E j \in DOMAIN world.workloads : world.workloads[j].ns = world.workloads[i].ns /\ world.workloads[j].name = "ingress-controller"
+       /\ Step("NameLikePlaceholder", <<i>>, [world EXCEPT !.workloads[i].name = "ingress-controller"])
+
 (* C17: same pod template, different controller kind / replicas / bare pods with one owner *)
 ReExpressWorkload ==
   \E i \in Pick(DOMAIN world.workloads) :
@@ -382,7 +389,7 @@ ExplicitPolicyTypes ==
 
 AddRuleAgain == AddRule      \* listed twice: TLC's simulator picks uniformly among the disjuncts of Next
 AddRuleOnceMore == AddRule
-NPNext == AddRuleAgain \/ AddRuleOnceMore \/ AddWorkload \/ AddTwinWorkload \/ RemoveWorkload \/ ReExpressWorkload \/ RelabelNamespace \/ AddPolicy \/ AddRule \/ AddPeer \/ AddPort
+NPNext == AddRuleAgain \/ AddRuleOnceMore \/ AddWorkload \/ AddTwinWorkload \/ NameLikePlaceholder \/ RemoveWorkload \/ ReExpressWorkload \/ RelabelNamespace \/ AddPolicy \/ AddRule \/ AddPeer \/ AddPort
           \/ SetPolicyTypes \/ RemovePolicy \/ RespellPodSelAsIn \/ RespellPeerSelAsIn \/ SplitRange \/ SplitCidr
           \/ SplitPolicy \/ ExplicitPolicyTypes \/ MoveCidr \/ MoveCidrAgain \/ RemoveRule
 
